@@ -443,6 +443,17 @@ fn c09_pass(sink: &mut Sink, rng: &mut Rng, thorough: bool) {
         from_moc2(RangeMOC2::<u64, Time<u64>, u64, Hpx<u64>>::from_fixed_depth_cells(DT_(), DS, unit_cells.iter().cloned(), Some(cap)))
       }));
       sink.count("path:cells-builder");
+      if cap == 100 {
+        // one buffer (capacity above the number of observations): the ELEMENTS against the transliterated `buff_to_moc`
+        let res2 = std::panic::catch_unwind(AssertUnwindSafe(|| {
+          let m = RangeMOC2::<u64, Time<u64>, u64, Hpx<u64>>::from_fixed_depth_cells(DT_(), DS, unit_cells.iter().cloned(), Some(cap));
+          let cells_of = |rs: &[Range<u64>], unit: u64| -> String { rs.iter().flat_map(|r| (r.start / unit..r.end / unit)).map(|c| c.to_string()).collect::<Vec<_>>().join(",") };
+          let es = from_moc2(m);
+          if es.is_empty() { "_".to_string() } else { es.iter().map(|(t, s)| format!("{}@{}", cells_of(t, tunit()), cells_of(s, sunit()))).collect::<Vec<_>>().join(";") }
+        }));
+        let btxt = if unit_cells.is_empty() { "_".to_string() } else { unit_cells.iter().map(|(t, s)| format!("{}:{}", t, s)).collect::<Vec<_>>().join(",") };
+        match res2 { Err(_) => sink.emit(&format!("st_buff {}", btxt), &panic_answer(), true), Ok(a) => sink.emit(&format!("st_buff {}", btxt), &a, nobs > 1) }
+      }
       let opu = format!("st_obs {} {} {}", utxt, tp, sp);
       match res { Err(_) => sink.emit(&opu, &panic_answer(), true), Ok(out) => { sink.emit(&opu, &bits_of(&out), nobs > 1); } }
       // (e) (microseconds, lon, lat) observations: an instant inside the time cell, the centre of the space cell
